@@ -316,9 +316,9 @@ func c01Ops(thorough bool) []vsched.Op {
 	return ops
 }
 
-// c01ColdIdx: this script is also run against itself from the package's
-// initial state (Huffman decoding tree not built), in the thorough tier.
-const c01ColdIdx = 0
+// c01ColdIdx: the pairs of these scripts are also explored from the
+// package's initial state (Huffman decoding tree not built, pool empty).
+var c01ColdIdx = []int{0, 2}
 
 // c01Warm puts the package into the state every call but the first sees:
 // Huffman decoding tree built, one buffer in the pool (exported API only;
@@ -333,7 +333,7 @@ func c01Warm() {
 func TestVerif_C01_globals(t *testing.T) {
 	vx.Run(t, "C01", func(c *vx.Ctx) {
 		bounds := vx.Pick(c, []int{1}, []int{1, 2})
-		c.Rule("concurrent part: for every unordered pair of scripts from a small alphabet (each script makes its own Encoder over its own buffer and its own Decoder, writes 2-3 header lists — RFC 7541 C.4 requests and C.6 responses, sensitive and non-sensitive fields with equal pairs, SETTINGS-style table sizes 0 / 70 / 100 / 256 / 4096 changed between lists incl. two changes in a row, an encoder-local limit, empty / incompressible / 300-octet / Huffman-favourable and -hostile values, eviction and re-adding; thorough adds size 33, a 70-entry table of 8192 and empty lists — and decodes each list with one Write, DecodeFull or fixed-size Writes) two threads run one script each (thorough: twice each) on the instrumented http2/hpack source, starting (programs warm/pair/…, all pairs) from the state after one Huffman decode and (thorough only: program pair/…, one script against itself, one call per thread) from the package's initial state; every schedule with at most B preemptions (quick B=1; thorough B=1 for every program, then B=2 as far as the budget reaches — the bound completed per program is recorded) at the scheduling points — before each statement mentioning a written package-level variable " + fmt.Sprint(zzWrittenGlobals) + ", sync.Once, sync.Pool Get/Put, and between any two Encoder / Decoder calls of a script — is executed; each script must produce its sequential transcript (wire bytes of every list, Decoder errors, emitted fields with Sensitive flags), the emitted fields must be the written ones, and (white-box) the encoder table must stay the newest part of the decoder table")
+		c.Rule("concurrent part: for every unordered pair of scripts from a small alphabet (each script makes its own Encoder over its own buffer and its own Decoder, writes 2-3 header lists — RFC 7541 C.4 requests and C.6 responses, sensitive and non-sensitive fields with equal pairs, SETTINGS-style table sizes 0 / 70 / 100 / 256 / 4096 changed between lists incl. two changes in a row, an encoder-local limit, empty / incompressible / 300-octet / Huffman-favourable and -hostile values, eviction and re-adding; thorough adds size 33, a 70-entry table of 8192 and empty lists — and decodes each list with one Write, DecodeFull or fixed-size Writes) two threads run one script each (thorough: twice each) on the instrumented http2/hpack source, starting (programs warm/pair/…, all pairs) from the state after one Huffman decode and (programs pair/…, the three pairs of two of the scripts) from the package's initial state (decoding tree not built, pool empty); every schedule with at most B preemptions (quick B=1; thorough B=1 for every program, then B=2 as far as the budget reaches — the bound completed per program is recorded) at the scheduling points — before each statement mentioning a written package-level variable " + fmt.Sprint(zzWrittenGlobals) + ", sync.Once, sync.Pool Get/Put, and between any two Encoder / Decoder calls of a script — is executed; each script must produce its sequential transcript (wire bytes of every list, Decoder errors, emitted fields with Sensitive flags), the emitted fields must be the written ones, and (white-box) the encoder table must stay the newest part of the decoder table")
 		c.Assume("concurrent part: statement granularity at mentions of written package-level variables; accesses to heap objects only reachable from them and mutation through method calls are not scheduling points; sync.Pool is one shared LIFO free list; the Encoder path mentions no written package-level variable today, so its calls interleave only at the harness's points between calls")
 		seq := 0
 		if !c.Quick() {
@@ -346,10 +346,12 @@ func TestVerif_C01_globals(t *testing.T) {
 			p.Name = "warm/" + p.Name
 			progs = append(progs, p)
 		}
-		if !c.Quick() {
-			// first use (decoding tree not built yet): one program pair, last, one call per thread
-			progs = append(progs, vsched.PairPrograms("C01", zzResetGlobals, []vsched.Op{ops[c01ColdIdx]}, 0)...)
+		// first use (decoding tree not built yet, pool empty): the pairs of two scripts, last
+		var cold []vsched.Op
+		for _, i := range c01ColdIdx {
+			cold = append(cold, ops[i])
 		}
+		progs = append(progs, vsched.PairPrograms("C01", zzResetGlobals, cold, seq)...)
 		c.Note("globals_programs", len(progs))
 		c.Note("written_package_level_variables", zzWrittenGlobals)
 		vsched.RunBounds(c, "globals", progs, bounds)
